@@ -127,6 +127,9 @@ class MemWriter:
         return
 
     def get_extra_info(self, k, default=None):
+        extra = getattr(self, "extra", None)
+        if extra is not None and k in extra:
+            return extra[k]
         return ("127.0.0.1", 40000) if k == "peername" else default
 
 
